@@ -25,8 +25,11 @@ type config struct {
 	buf   uint32
 }
 
+var optFlip int
+
 func (c config) opts() ls.Options {
-	return ls.Options{SysEx: c.sysex, TimeCode: true, ActiveSense: true, BufSize: c.buf}
+	optFlip++
+	return ls.Options{SysEx: c.sysex, TimeCode: true, ActiveSense: true, BufSize: c.buf, Reversed: optFlip%2 == 1}
 }
 
 func (c config) String() string { return fmt.Sprintf("sysex=%v/buf=%d", c.sysex, c.buf) }
@@ -124,7 +127,7 @@ func product(cfg config) { productOps(cfg, false) }
 
 func productOps(cfg config, multi bool) {
 	ops := chunkOps(multi)
-	b := &engine.BFS{NumOps: len(ops), MaxStates: 3_000_000}
+	b := &engine.BFS{NumOps: len(ops), MaxStates: 400000, Stop: func() bool { return ctx.ViolationCount() > 0 }}
 	b.Run = func(path []uint16) (string, bool) {
 		var stream []byte
 		var chunks []int
@@ -253,8 +256,14 @@ func sysexSizes(part, parts int) {
 		sizes = append(sizes, s)
 	}
 	sizes = append(sizes, 0, 511, 512, 513, 1000, 1023, 1024, 1025, 2047, 2048, 2049, 4096)
+	// ascending, then descending: decoders with different buffer sizes follow each
+	// other in both orders within one process
+	n := len(sizes)
+	for i := n - 1; i >= 0; i-- {
+		sizes = append(sizes, sizes[i])
+	}
 	for si, size := range sizes {
-		if si%parts != part {
+		if si%parts != part && (2*n-1-si)%parts != part {
 			continue
 		}
 		eff := size
